@@ -19,8 +19,13 @@ claim("C14",
       "Every incremental counter update has an exact inverse under the same status predicate (node, shared-GPU, job, index, pod-set, queue handlers, Resource/BaseResource/Vector arithmetic); struct and vector representations move together; UpdateTaskStatus is reset→store→add and NodeInfo.UpdateTask is remove→add; the accounting fields are written only by the reviewed accounting functions; node-dependent accepted resources are recomputed before being charged; the status groups form the required lattice. Equality with recomputation over all histories is not decided.",
       NOTE)
 
+claim("C13",
+      "typestate of *framework.Statement over the SSA CFG with helper contracts (resolve / hand-over), must-pass-through for operation logging and handler firing, write-set vs restore-set comparison of forward operations and their registered inverses (incl. fields written by registered plugin handlers), provenance of captured 'previous' values, guard dominance for Commit/undo validity, who-may-call tables for cluster emission",
+      "Every Statement created in the scheduler is committed, discarded or handed over on every path; Evict/Pipeline/Allocate log exactly one record per success and register inverses that restore every PodInfo field they (or the plugin handlers they fire) write, from values read before the first write, firing the opposite handler; Commit emits only operationValid operations through commit*, stops after a failed bind and never undoes; undo selects only still-valid operations; Cache.Bind/Evict/TaskPipelined are reachable only from the commit path and Session.Evict; Rollback/Discard undo in reverse order and truncate the log. State equality after undo for all sequences is not decided.",
+      NOTE)
+
 NA = {
     "C15": "quantifies over infinite executions of a closed system (lasso freedom); no static shape of the code settles it. Its three guards (strict saturation comparison with multiplier >= 1, strictly-lower priority for preempt, consolidation only when all victims are re-placed) are decided as clauses of C07 and C06.",
 }
-for _p in ["C03","C04","C05","C06","C07","C08","C09","C10","C11","C12","C13","C16","C17","C18","C19","C20"]:
+for _p in ["C03","C04","C05","C06","C07","C08","C09","C10","C11","C12","C16","C17","C18","C19","C20"]:
     NA.setdefault(_p, "check under construction in this session (see DESIGN.md §4 for the planned static obligations); not claimed until the check exists")
